@@ -1,6 +1,6 @@
 CONFIG = dict(
     coqfiles=["Props/C09.v"],
-    n_quick=24000, n_thorough=1000000, workers_quick=8,
+    n_quick=16000, n_thorough=1000000, workers_quick=8,
     rule="92% structured: digest of one of the 8 digest functions over content of 0-33 bytes; the script is that content (valid) or one of: truncated, "
          "trailing data, one byte changed, digest states another size, digest hash changed, empty; cut into chunks (whole / single bytes / 1-3 / random, "
          "empty chunks sprinkled in), optional I/O error at any position incl. after the last chunk, explicit/early EOF, events after EOF, "
